@@ -6,6 +6,8 @@ import gen as G
 import shapes as S
 
 PID = 'C04'
+FLOAT_KINDS = {'ins-method', 'ins-op', 'ins-method-seq'}      # float-mode companion (core.float_companion)
+FLOAT_TOL = 1e-8
 STATS = G.STATS
 KIND = {'curve': 'c', 'surface': 's', 'volume': 'v'}
 PARTIAL = [
